@@ -70,3 +70,27 @@ PROPS['C20'] = dict(
     level_text='Unbounded theorems over the AMM formula regenerated from fsm/dex.go: output below reserve, product of reserves non-decreasing, for every batch length and order; liquidity points always sum to the pool total through deposits (shares + dust) and withdrawals, reserves are debited by exactly what is paid, no unchecked uint64 operation wraps, no request exceeds its pro-rata share even with duplicate providers. The model is run against the real handlers on every check. Partial: batch pipeline and order-book escrow identities not yet in the model.',
     level_note='Trusted: Coq kernel, translator, hand-written mirror of the DEX loops tied by correspondence. Not covered: DEX batch rotation/liveness fallback/holding-pool identity and the sell-order escrow identity (stated in DESIGN.md as pending parts of C20).',
 )
+
+PROPS['C08'] = dict(
+    props='props/C08.v',
+    models=['Trie', 'TrieCheck'],
+    harness='c08',
+    args=dict(quick=['-w8', '120', '-w16', '120', '-w160', '40'], thorough=['-w8', '3000', '-w16', '3000', '-w160', '600']),
+    fingerprint_groups=['Trie'],
+    rule='histories of 1-4 batches of 1-60 set/overwrite/delete operations on the real SMT (fresh SMT object per batch over one transaction, as '
+         'Store.Root() uses it), key widths 8, 16 (raw keys found by search so any hashed bit pattern can be targeted: neighbours differing in the '
+         'last bits, keys adjacent to the 14 synthetic subtree borders, same 3-bit prefix clusters) and 160, batches below / around / above the '
+         '16-operation parallel threshold, sequential and parallel commits chosen at random; per history: persisted tree dump compared in Coq '
+         'with the model tree, canonical-form and leaves = final-map predicate, every stored parent hash recomputed with SHA-256 in Go, and a '
+         're-batched, re-ordered history with the same final content replayed for root equality; non-trivial: at least two operations',
+    modelled='hand-modelled: the structural effect of set()/delete()/traverse(), the batch as a sorted op sequence, CommitParallel as borders + any '
+             'schedule + cleanup, what a parent value is a hash of. NOT modelled: the lazy rehash bookkeeping (traversed stack, early exit on the next '
+             'operation key), node cache, the byte encoding of node keys (newNodeKey/bitAt/addBit) — these are exercised by the correspondence: '
+             'every stored hash is recomputed from the dump and the tree shape is compared with the model on every run.',
+    assumptions=['ideal hash: a digest is a term over (left key, left digest, right key, right digest); the code hashes the unframed concatenation of '
+                 'the four byte strings', 'operation keys differ from the two sentinels and the 14 synthetic border keys (a 157-bit partial preimage '
+                 'otherwise)', 'key width > 3'],
+    trusted_base=['model/Trie.v is a hand-written mirror of the SMT structure algorithms tied by the correspondence run (shape + recomputed hashes)'],
+    level_text='Unbounded theorems over the compressed-trie model: canonical form is unique, the tree is a finite map, any two histories with the same final content give the same tree and root, batch = fold, parallel commit = sequential for every worker schedule, synthetic borders leave no trace, the root digest is injective on states and equals the canonical commitment built in any order. The real SMT is run on adversarially structured histories every check; its persisted tree must equal the model tree and every stored hash must recompute.',
+    level_note='Trusted: Coq kernel, hand-written structural model tied by correspondence, ideal hash. Lazy rehash bookkeeping, node-key byte codec and goroutine scheduling inside CommitParallel are validated by the correspondence (shape equality + recomputed SHA-256 + rebatched-history root equality), not proved.',
+)
